@@ -54,6 +54,12 @@ Proof.
   - eapply Permutation_trans; eassumption.
 Qed.
 
+Lemma forallb_map_pv : forall A B (f : B -> bool) (g : A -> B) l, forallb f (map g l) = forallb (fun x => f (g x)) l.
+Proof. intros A B f g l. induction l as [|x l IH]; [reflexivity|]. cbn [map forallb]. now rewrite IH. Qed.
+
+Lemma forallb_ext_pv : forall A (f g : A -> bool) l, (forall x, f x = g x) -> forallb f l = forallb g l.
+Proof. intros A f g l H. induction l as [|x l IH]; [reflexivity|]. cbn [forallb]. now rewrite H, IH. Qed.
+
 Lemma forallb_perm : forall A (f : A -> bool) l l', Permutation l l' -> forallb f l = forallb f l'.
 Proof.
   induction 1 as [|x l l' _ IH|x y l|l l' l'' _ IH1 _ IH2]; cbn [forallb]; try congruence.
@@ -249,6 +255,9 @@ Proof.
   destruct (Permutation_Forall2 PU F3) as [l3' [P3 F3']].
   assert (Fl' : snd (flask_m value env dc') = WOk tt).
   { rewrite <- Fl. unfold flask_m. rewrite <- Hs. unfold all_flask_json. rewrite <- (forallb_perm _ _ _ _ P).
+    replace (forallb (fun p => match lookup_param value dc' (p_name p) with Some q => p_flask_json q | None => true end) (d_params dc))
+      with (forallb (fun p => match lookup_param value dc (p_name p) with Some q => p_flask_json q | None => true end) (d_params dc)).
+    2:{ apply forallb_ext_pv. intro p. now rewrite (lookup_perm dc dc' (p_name p) P ND). }
     destruct (d_strict dc && w_flask_installed env); [|reflexivity].
     destruct (forallb _ (d_params dc)); [|reflexivity]. destruct (w_request env) as [rq|]; [|reflexivity].
     replace (existsb (fun k => negb (declared value dc' k)) (r_json_keys rq))
@@ -467,8 +476,11 @@ Lemma flask_replace : flask_m value env dc' = flask_m value env dc.
 Proof.
   unfold flask_m. cbn [dc' replace_ext d_strict].
   replace (all_flask_json value dc') with (all_flask_json value dc).
-  2:{ unfold all_flask_json, dc', replace_ext. cbn [d_params]. induction (d_params dc) as [|p l IH]; [reflexivity|].
-      cbn [map forallb]. rewrite IH. now destruct (Nat.eqb (p_name p) n). }
+  2:{ unfold all_flask_json. fold dc'.
+      replace (d_params dc') with (map G (d_params dc)) by reflexivity. rewrite forallb_map_pv.
+      apply forallb_ext_pv. intro p. rewrite G_name, lookup_replace.
+      destruct (lookup_param value dc (p_name p)) as [q|]; [|reflexivity]. cbn [option_map].
+      unfold G. now destruct (Nat.eqb (p_name q) n). }
   destruct (d_strict dc && w_flask_installed env); [|reflexivity].
   destruct (all_flask_json value dc); [|reflexivity]. destruct (w_request env) as [rq|]; [|reflexivity].
   replace (existsb (fun k => negb (declared value dc' k)) (r_json_keys rq))
